@@ -5,6 +5,7 @@ cd "$(dirname "$0")/.."
 SRC=${VP_RUN_REPO:-/repo}
 for d in seeded/*/; do
   n=$(basename $d); p=$(python3 -c "import json;print(json.load(open('$d/meta.json'))['property'])")
+  if [ "$(python3 -c "import json;print(json.load(open('$d/meta.json')).get('out_of_scope',False))")" = "True" ]; then echo "$n: out of scope (see meta.json), not run"; continue; fi
   T=$(mktemp -d /tmp/seedrun-XXXX); cp -r $SRC $T/repo; rm -rf $T/repo/.git
   if ! (cd $T/repo && patch -p1 -s < "$OLDPWD/$d/patch.diff" >/dev/null 2>&1); then echo "$n: PATCH DOES NOT APPLY"; rm -rf $T; continue; fi
   b=$(VERIF_REPO=$T/repo python3 bin/baseline.py | head -1)
